@@ -76,10 +76,11 @@ theorem sum_zero_of_all (l : List Nat) (h : ∀ x ∈ l, x = 0) : l.sum = 0 := b
     rw [h a (by simp), ih (fun x hx => h x (by simp [hx]))]
 
 theorem count_fixable_zero (vs : List Viol) (h : ∀ v ∈ vs, v.kind = 3 → v.hasFixes = false)
-    (hnf : ∀ v ∈ vs, v.fatal = false) : count vs isLint true true (some true) = 0 := by
+    (hnf : ∀ v ∈ vs, v.fatal = false) : count vs isLint true false (some true) = 0 := by
   unfold count getViolations
-  simp only [if_true, List.length_eq_zero_iff, List.filter_eq_nil_iff, List.mem_filter]
-  rintro v ⟨⟨⟨⟨hv, h1⟩, h2⟩, _⟩, _⟩
+  simp only [if_true, Bool.false_eq_true, if_false, List.length_eq_zero_iff, List.filter_eq_nil_iff,
+    List.mem_filter]
+  rintro v ⟨⟨⟨hv, h1⟩, h2⟩, _⟩
   simp only [isLint, beq_iff_eq] at h1
   have e1 := h v hv h1
   have e2 := hnf v hv
